@@ -42,27 +42,27 @@ def CtrState.setCounter (bs B : Nat) (st : CtrState) (counter : Option Bytes) (s
 consumes at least one byte, so `input.length` suffices).  `lazy = false` is the generic back end
 (counter incremented right after a keystream block is generated), `lazy = true` the vector back
 ends (lane counters advanced by `pending` right before the next batch is generated). -/
-def ctrLoop (E : Bytes → Bytes) (bs B : Nat) (lazy : Bool) : Nat → CtrState → Bytes → Bytes → CtrState × Bytes
+def ctrLoop (inc : Nat → Bytes → Bytes) (E : Bytes → Bytes) (bs B : Nat) (lazy : Bool) : Nat → CtrState → Bytes → Bytes → CtrState × Bytes
   | 0, st, _, out => (st, out)
   | fuel + 1, st, input, out =>
     if input.isEmpty then (st, out)
     else if st.offset ≥ B * bs then
-      let lanes0 := if lazy then st.lanes.map (incCounter bs st.pending) else st.lanes
+      let lanes0 := if lazy then st.lanes.map (inc st.pending) else st.lanes
       let ec := lanes0.flatMap E
-      let lanes := if lazy then lanes0 else lanes0.map (incCounter bs B)
+      let lanes := if lazy then lanes0 else lanes0.map (inc B)
       let pending := if lazy then B else st.pending
       if input.length ≥ B * bs then
-        ctrLoop E bs B lazy fuel { st with lanes := lanes, ecounter := ec, pending := pending } (input.drop (B * bs))
+        ctrLoop inc E bs B lazy fuel { st with lanes := lanes, ecounter := ec, pending := pending } (input.drop (B * bs))
           (out ++ xorBytes (input.take (B * bs)) ec)
       else
         ({ lanes := lanes, ecounter := ec, offset := input.length, pending := pending }, out ++ xorBytes input ec)
     else
       let temp := min (B * bs - st.offset) input.length
-      ctrLoop E bs B lazy fuel { st with offset := st.offset + temp } (input.drop temp)
+      ctrLoop inc E bs B lazy fuel { st with offset := st.offset + temp } (input.drop temp)
         (out ++ xorBytes (input.take temp) (st.ecounter.drop st.offset))
 
 def ctrEncrypt (E : Bytes → Bytes) (bs B : Nat) (lazy : Bool) (st : CtrState) (input : Bytes) : CtrState × Bytes :=
-  ctrLoop E bs B lazy (input.length + 1) st input []
+  ctrLoop (incCounter bs) E bs B lazy (input.length + 1) st input []
 
 /-- keystream reset after a key or tweak change: the generic back end sets `offset := bs`; the
 vector back ends (`*_reset`) remember how many blocks of the current batch were used -/
